@@ -59,19 +59,19 @@ def pytest_configure(config):
             fc_sink.append({"op": "leaf", "key": int(token.value), "res": J(r)})
             return r
 
-        def and_composition(self, left, right):
-            r = super().and_composition(left, right)
-            fc_sink.append({"op": "and", "l": J(left), "r": J(right), "res": J(r)})
+        def and_composition(self, *args):
+            r = super().and_composition(*args)
+            fc_sink.append({"op": "and", "l": J(args[0]), "r": J(args[1]), "res": J(r)} if len(args) == 2 else {"op": "skip"})
             return r
 
-        def or_composition(self, left, right):
-            r = super().or_composition(left, right)
-            fc_sink.append({"op": "or", "l": J(left), "r": J(right), "res": J(r)})
+        def or_composition(self, *args):
+            r = super().or_composition(*args)
+            fc_sink.append({"op": "or", "l": J(args[0]), "r": J(args[1]), "res": J(r)} if len(args) == 2 else {"op": "skip"})
             return r
 
-        def xor_composition(self, left, right):
-            r = super().xor_composition(left, right)
-            fc_sink.append({"op": "xor", "l": J(left), "r": J(right), "res": J(r)})
+        def xor_composition(self, *args):
+            r = super().xor_composition(*args)
+            fc_sink.append({"op": "xor", "l": J(args[0]), "r": J(args[1]), "res": J(r)} if len(args) == 2 else {"op": "skip"})
             return r
 
     fmod.FormatConstraintTransformer = FcTracing
